@@ -32,9 +32,54 @@ def cost_spec(method, name):
     return {n: table[n] for n in names}
 
 
+class _NxShim:
+    """seam for the address-dependent iteration order of the node sets returned by
+    networkx.weakly_connected_components (used by build_shared_features_map /
+    build_shared_mps_qtz_map): components and their members are yielded in a seeded order"""
+    def __init__(self, real, seed):
+        self._real = real
+        self._seed = seed
+
+    def __getattr__(self, name):
+        return getattr(self._real, name)
+
+    def weakly_connected_components(self, g):
+        from sim.prng import Stream
+        rs = Stream(self._seed, 'components')
+        comps = [sorted(c, key=lambda n: n.name) for c in self._real.weakly_connected_components(g)]
+        comps.sort(key=lambda c: c[0].name)
+        rs.shuffle(comps)
+        for c in comps:
+            rs.shuffle(c)
+            yield c
+
+
+class component_order:
+    """context manager: plinio's graph modules see the shimmed networkx while a wrapper is built"""
+    def __init__(self, seed):
+        self.seed = seed
+
+    def __enter__(self):
+        import plinio.methods.pit.graph as pg
+        import plinio.methods.mps.graph as mg
+        self.mods = [pg, mg]
+        self.saved = [m.nx for m in self.mods]
+        for m in self.mods:
+            m.nx = _NxShim(m.nx if not isinstance(m.nx, _NxShim) else m.nx._real, self.seed)
+
+    def __exit__(self, *a):
+        for m, sv in zip(self.mods, self.saved):
+            m.nx = sv
+
+
 def build_model(cfg, build_seed):
     """a fresh wrapper of the seed network described by cfg, under process-level randomness
-    `build_seed` (random weights, random input example)"""
+    `build_seed` (random weights, random input example, iteration order of graph components)"""
+    with component_order(build_seed):
+        return _build_model(cfg, build_seed)
+
+
+def _build_model(cfg, build_seed):
     from plinio.methods import PIT, MPS, SuperNet
     torch.manual_seed(build_seed)
     spec = cfg['spec']
@@ -219,7 +264,7 @@ def sgd_step(rep, which, lr):
         opt.step()
 
 
-def perturb_arch(rep, run_seed, idx, style):
+def perturb_arch(rep, run_seed, idx, style, write='copy'):
     g = torch.Generator()
     g.manual_seed(torch_seed(run_seed, 'perturb', idx))
     with torch.no_grad():
@@ -246,7 +291,15 @@ def perturb_arch(rep, run_seed, idx, style):
                 raise ValueError(style)
             if id(p) in getattr(rep, 'perturb_skip', ()):
                 continue          # values are still drawn, so the stream stays aligned
-            p.copy_(v.to(p.dtype))
+            v = v.to(p.dtype)
+            if write == 'copy':
+                p.copy_(v)                 # what an optimizer does: in-place under no_grad
+            elif write == 'data':
+                p.data = v                 # what plinio's own optimize_prec_assignment does
+            elif write == 'data_copy':
+                p.data.copy_(v)            # in-place on .data: invisible to autograd's version counter
+            else:
+                raise ValueError(write)
 
 
 def apply_op(rep, op, idx, run_seed, side_hook=None):
@@ -292,7 +345,7 @@ def apply_op(rep, op, idx, run_seed, side_hook=None):
             return {'aborted': 1}
         return {'out': tensor_list(out)}
     if k == 'perturb_arch':
-        perturb_arch(rep, run_seed, idx, op['style'])
+        perturb_arch(rep, run_seed, idx, op['style'], op.get('write', 'copy'))
         return {'ok': 1}
     if k == 'read_cost':
         return {'cost': cost_values(m)}
